@@ -18,8 +18,11 @@ def run(ck):
         T, ln = shapes[i % len(shapes)]
         pad = (i // len(shapes)) % 2 == 0
         cfg.append((T, pad, pipe_input(r, ln, pad), r.randrange(1 << 30), 1 if i % 4 == 3 else 0, 1 if i % 3 == 1 else 0))
+    # a tenth of the runs with injected spurious wake-ups (policy code 10*percent + policy): outside the Coq model, which
+    # assumes none; the while-loops around cv.wait must make the code robust to them
+    cfg = [(T, pad, inp, seed, ycs, pol + (200 if k % 10 == 9 else 0)) for k, (T, pad, inp, seed, ycs, pol) in enumerate(cfg)]
     res = run_schedules(ck, exe, cfg)
-    C03.analyse(ck, res, want=("deadlock", "trace"))
+    C03.analyse(ck, res, want=("deadlock", "trace", "output"))
     ck.cov["max_steps_seen"] = max([len(x["steps"]) for x in res] or [0])
     C03.end_to_end(ck, exe, 120 if big else 30)
     return finish_proof(ck, rule="termination under seeded schedules of the real pipeline (scheduler shim reports 'no enabled thread while a thread is unfinished' as DEADLOCK and > 2*10^6 steps as LIVELOCK): empty inputs, inputs ending exactly on a chunk boundary, more workers than chunks (T up to 16), both directions, uniform and priority schedulers, extra yields inside critical sections in a quarter of the runs; every trace replayed on the Coq transition system (incl. the number of enabled threads at every step); whole encrypt/decrypt/verify under random schedules. distinct = distinct (T, direction, length, schedule)",
